@@ -48,6 +48,11 @@ Proof.
   destruct H as [H|H]; [discriminate|]. now rewrite IH.
 Qed.
 
+Lemma map_snd_combine_F {A C} (a : list A) (b : list C) : length b = length a -> map snd (combine a b) = b.
+Proof.
+  revert b. induction a as [|x a IH]; intros [|y b] H; cbn in *; try discriminate; auto. f_equal. apply IH. congruence.
+Qed.
+
 Lemma zmem_in_F c l : In c l -> zmem c l = true.
 Proof. intro H. unfold zmem. apply existsb_exists. exists c. split; auto. apply Z.eqb_refl. Qed.
 
@@ -170,6 +175,26 @@ Section AField.
     rewrite map_nth0.
     - rewrite (al_power AL), (H2 t Ht). reflexivity.
     - rewrite (al_power AL), Odiv. ring.
+  Qed.
+
+  (* ---------------- the aggregates do not depend on the order (labelling) of the stations ---------------- *)
+  Theorem aggregate_relabel_F (tr tr' : traj) :
+    Forall (fun row => length row = t_width tr) (t_rates tr) ->
+    Forall (fun row => length row = t_width tr') (t_rates tr') ->
+    t_width tr = t_width tr' ->
+    Permutation (combine (t_volts tr) (t_rates tr)) (combine (t_volts tr') (t_rates tr')) ->
+    length (t_volts tr) = length (t_rates tr) -> length (t_volts tr') = length (t_rates tr') ->
+    aggregate_current O tr = aggregate_current O tr' /\ aggregate_power O A tr = aggregate_power O A tr'.
+  Proof.
+    intros H H' HW HP HL HL'.
+    destruct (aggregate_F tr H) as (L1 & L2 & Hn). destruct (aggregate_F tr' H') as (L1' & L2' & Hn').
+    assert (Hrows : Permutation (t_rates tr) (t_rates tr')).
+    { apply (Permutation_map snd) in HP. rewrite !map_snd_combine_F in HP by (symmetry; assumption). exact HP. }
+    split; apply (nth_ext _ _ z0 z0); try congruence; intros t Ht.
+    - rewrite L1 in Ht. destruct (Hn t Ht) as [E _]. destruct (Hn' t ltac:(congruence)) as [E' _].
+      rewrite E, E'. unfold aggregate_current_spec. apply (Fsum_perm F O Oring). now apply Permutation_map.
+    - rewrite L2 in Ht. destruct (Hn t Ht) as [_ E]. destruct (Hn' t ltac:(congruence)) as [_ E'].
+      rewrite E, E'. unfold aggregate_power_spec. f_equal. apply (Fsum_perm F O Oring). now apply Permutation_map.
   Qed.
 
   (* ---------------- value of one series ---------------- *)
